@@ -29,6 +29,14 @@ instance : LawfulBEq SKind where
 @[simp] theorem flags_setVal (v : Bytes) (n : DNode) : (n.setVal v).flags = n.flags := by cases n <;> rfl
 @[simp] theorem flags_setKids (k : List DNode) (n : DNode) : (n.setKids k).flags = n.flags := by cases n <;> rfl
 @[simp] theorem metas_setFlags (f : Flags) (n : DNode) : (n.setFlags f).metas = n.metas := by cases n <;> rfl
+@[simp] theorem metas_setKids (k : List DNode) (n : DNode) : (n.setKids k).metas = n.metas := by cases n <;> rfl
+@[simp] theorem metas_setDflt (b : Bool) (n : DNode) : (n.setDflt b).metas = n.metas := by simp [DNode.setDflt]
+
+theorem kids_setKids_of_inner (n : DNode) (k : List DNode) (b : Bool) (h : n.isTerm = false) :
+    ((n.setKids k).setDflt b).kids = k := by
+  cases n with
+  | term => simp [DNode.isTerm] at h
+  | inner => simp [DNode.setKids, DNode.setDflt, DNode.setFlags, DNode.kids]
 
 theorem setFlags_self (n : DNode) : n.setFlags n.flags = n := by cases n <;> rfl
 theorem setDflt_self (n : DNode) : n.setDflt n.flags.dflt = n := by cases n <;> rfl
